@@ -1,9 +1,15 @@
 (* C02 -- token streams are well nested, correctly levelled and tree-constructible.
-   Stream-level theorems (for ALL token lists); the producer side (every rule pushes balanced
-   segments) is carried by the pipeline correspondence and the well-formedness checker on the
-   implementation.  Only statements and [exact]. *)
+   Block half, PROVED for every source, env, configuration and every value of the opaque
+   dependencies: what ParserBlock.parse appends to the token list is a balanced segment at depth 0
+   (C02_block_stream_balanced): openers and closers pair up in nested fashion, every level is the
+   running depth, nesting sums to zero, the state's level is back at 0.  The proof goes rule by
+   rule (all 11 block rules incl. the recursive containers, the table body, the updates of maps
+   and hidden flags after the fact), through terminator chains, the line loop and the recursion
+   on container depth.  Inline half: fragments_join / text_join theorems below; that each inline
+   rule pushes balanced segments is carried by the pipeline correspondence and the
+   well-formedness predicate on the implementation.  Only statements and [exact]. *)
 From MD Require Import Base.Py Base.Str Base.Opt Model.Token Model.Utils Model.Render Model.Core Model.StateBlock
-     Model.Block Model.Inline Model.Tree Lemmas.StreamWF Lemmas.BlockLemmas Lemmas.TreeLemmas.
+     Model.Block Model.Inline Model.Tree Lemmas.StreamWF Lemmas.BlockLemmas Lemmas.TreeLemmas Lemmas.BlockWF.
 
 (* after fragments_join (the last inline post-processing rule) every token's level equals its
    depth at that point and no two text tokens are adjacent *)
@@ -31,3 +37,23 @@ Print Assumptions C02_block_push_level.
 Theorem C02_tree_roundtrip : forall ts n, build ts = Ok n -> to_tokens n = ts.
 Proof. exact tree_roundtrip. Qed.
 Print Assumptions C02_tree_roundtrip.
+
+(* the block parser, whole: balanced, well levelled, for all inputs and configurations *)
+Theorem C02_block_stream_balanced :
+  forall cfg reformat casefold src env toks st,
+    block_parse cfg reformat casefold src env toks = Ok st ->
+    exists seg, b_tokens st = toks ++ seg /\ bal 0 seg /\ levels_ok seg 0 /\ nest_sum seg = 0 /\ b_level st = 0.
+Proof. exact block_parse_balanced. Qed.
+Print Assumptions C02_block_stream_balanced.
+
+(* the same contract for any nested run of the block loop (container contents) *)
+Theorem C02_nested_tokenize_balanced :
+  forall cfg reformat casefold depth st startLine endLine st',
+    tokenize cfg reformat casefold depth st startLine endLine = Ok st' -> ext st st'.
+Proof. exact tokenize_ok. Qed.
+Print Assumptions C02_nested_tokenize_balanced.
+
+(* what [bal] means: levels are the running depth and nesting sums to zero *)
+Theorem C02_balanced_levels : forall d ts, bal d ts -> levels_ok ts d /\ nest_sum ts = 0.
+Proof. exact bal_summary. Qed.
+Print Assumptions C02_balanced_levels.
